@@ -15,7 +15,7 @@ git apply _seed/patch.diff
 echo "demo exit with change=$with without change=$without"
 cd /verif
 mkdir -p seeded/$name
-rsync -a --exclude '*.exe' --exclude 'bin/' "$wt/_seed/" seeded/$name/
+rsync -a --exclude '*.exe' --exclude 'bin/' --exclude 'work/' --exclude 'tmp/' --exclude 'out/' --max-size=300k "$wt/_seed/" seeded/$name/
 python3 - "$id" "$name" "$needs" "$with" "$without" <<'PY'
 import json,sys
 id,name,needs,w,wo=sys.argv[1:]
